@@ -791,7 +791,7 @@ def leaf_assignment(facts, res):
     leaves are cut where that same key changes (rule C07.5, same engine; a packed integer key must keep every bit of the index)"""
     import c07
     sub = tbf.Result("C07")
-    c07.sorter_split(facts, sub)
+    c07.sort_key(facts, sub)
     R = "C06.9.leaf-assignment"
     n = 0
     for i in sub.instances:
